@@ -48,10 +48,25 @@ import numpy as np
 
 from diffprivlib.accountant import BudgetAccountant
 from diffprivlib.mechanisms import LaplaceBoundedDomain, GeometricTruncated, LaplaceTruncated
-from diffprivlib.utils import PrivacyLeakWarning, warn_unused_args, check_random_state
+from diffprivlib.utils import PrivacyLeakWarning, warn_unused_args, check_random_state, Budget, BudgetError
 from diffprivlib.validation import check_bounds, clip_to_bounds
 
 _sum_ = sum
+
+
+def _check_cells(accountant, epsilon, cell_epsilon, n_cells):
+    """Checks up front that a query of `epsilon`, charged as `n_cells` spends of `cell_epsilon`, fits the budget as a
+    whole, so that it cannot be refused part-way with some of its cells already charged.
+    """
+    accountant = BudgetAccountant.load_default(accountant)
+    accountant.check(epsilon, 0)
+
+    # The rounded sum of the per-cell spends can exceed epsilon by an ulp, so check exactly what will be spent
+    total = accountant.total(spent_budget=accountant.spent_budget + [(cell_epsilon, 0)] * n_cells)
+    if not Budget(accountant.epsilon, accountant.delta) >= total:
+        raise BudgetError(f"Privacy spend of ({epsilon},0) not permissible; will exceed remaining privacy budget.")
+
+    return accountant
 
 
 def _wrap_axis(func, array, *, axis, keepdims, epsilon, bounds, **kwargs):
@@ -73,6 +88,8 @@ def _wrap_axis(func, array, *, axis, keepdims, epsilon, bounds, **kwargs):
     axis = tuple(ndim + ax if ax < 0 else ax for ax in axis)
 
     if isinstance(dummy, np.ndarray):
+        _check_cells(kwargs.get("accountant"), epsilon, epsilon / dummy.size, dummy.size)
+
         iterator = np.nditer(dummy, flags=['multi_index'])
 
         while not iterator.finished:
